@@ -191,21 +191,21 @@ func contentOf(e logiface.IPFSLogEntry) entryContent {
 	for _, n := range e.GetRefs() {
 		c.Refs = append(c.Refs, n.String())
 	}
-	if cl := e.GetClock(); cl != nil && cl.Defined() {
-		c.HasClock = true
-		c.ClockID = string(cl.GetID())
-		c.ClockTime = cl.GetTime()
-	}
+	// As jsonable.ToJsonableEntry / ToJsonableLamportClock / ToJsonableIdentity of the
+	// real CBOR IO: the clock and the identity's signatures are dereferenced
+	// without a nil check (an entry without them makes the real Write panic).
+	cl := e.GetClock()
+	c.HasClock = true
+	c.ClockID = string(cl.GetID())
+	c.ClockTime = cl.GetTime()
 	if id := e.GetIdentity(); id != nil {
 		c.HasID = true
 		c.IDID = id.ID
 		c.IDPub = string(id.PublicKey)
 		c.IDType = id.Type
-		if id.Signatures != nil {
-			c.HasIDSigs = true
-			c.IDSigID = string(id.Signatures.ID)
-			c.IDSigPub = string(id.Signatures.PublicKey)
-		}
+		c.HasIDSigs = true
+		c.IDSigID = string(id.Signatures.ID)
+		c.IDSigPub = string(id.Signatures.PublicKey)
 	}
 	return c
 }
